@@ -639,6 +639,8 @@ NEAR_TERMINAL = [
     ("1,1,1,1,x/2,2,2,2,x/x5/x5/x5 1 5", None, "5x5: both sides one move from a road"),
     ("2,1,2,1,2/1,2,1,2,1/2,1,2,1,2/1,2,1,2,1/2,1,2,1,x 1 13", None, "5x5: full board next move, flats decide"),
     ("1,1,x/1,2,2/x,2,1S 1 4", None, "3x3: a slide can give both sides a road at once"),
+    ("2,x2,2,x2/x2,1,1,1,1/x,2,1,2S,2,x/2,2,x,1,2,x/x2,2,1,2,2/1,1,1,1,x2 1 12", None,
+     "6x6: one flat (c3) short of an S-shaped road that doubles back towards its starting edge"),
 ]
 
 # capstone on top of a stack, a standing stone 2-3 squares away in a straight line, nothing in between
@@ -683,6 +685,17 @@ def do_search(spec, record_solver=False, select=False, after_phase=None):
                     # a new search from scratch on the same position, the evaluator object (and what it holds) shared
                     trace["old_trees"].append((tree, expected))
                     trace["old_roots"].append(root)
+                    # the same position, or (the SAME engine object goes on) one derived from it: the moves in
+                    # `moves` played on a private copy, and / or the ply shifted (the same board, side to move and reserves
+                    # at a later ply - what attrs.evolve(p, ply=p.ply + 2) builds)
+                    for mid in ph.get("moves", []):
+                        nxt = legal_ids(root_snap).get(mid)
+                        if nxt is None:
+                            raise ValueError(f"spec: move id {mid} is not legal in the restart line")
+                        root_snap = nxt
+                    if ph.get("ply_shift"):
+                        root_snap = (root_snap[0], root_snap[1], root_snap[2] + ph["ply_shift"], root_snap[3])
+                    trace["root_snap"] = root_snap
                     pos = rebuild(root_snap)
                     root = mcts.Node(position=pos, move=None)
                     tree, expected, abs_path = root, root_snap, []
@@ -691,7 +704,13 @@ def do_search(spec, record_solver=False, select=False, after_phase=None):
                 for pick in ph["path"]:
                     if not tree.children:
                         break
-                    i = pick % len(tree.children)
+                    if isinstance(pick, dict):      # the child reached by a given move id
+                        ids_here = [encoding.encode_move(size, c.move) for c in tree.children]
+                        if pick["id"] not in ids_here:
+                            break
+                        i = ids_here.index(pick["id"])
+                    else:
+                        i = pick % len(tree.children)
                     actual.append(i)
                     abs_path.append(i)
                     tree = tree.children[i]
@@ -1118,10 +1137,15 @@ def near_terminal_specs(rng, generated):
             t = swap_colours(tps) if swapped else tps
             r = (reserves[1], reserves[0]) if (swapped and reserves) else reserves
             st = tps_start(t, r)
-            budget = {3: 40, 4: 70, 5: 100}[st["size"]]
-            specs.append(fixed_start_spec(rng, st, ["uniform", "pm1"][(j + swapped) % 2], budget, "near-terminal",
-                                          what + (" (colours exchanged)" if swapped else ""),
-                                          sampler=["uniform", "torch"][j % 2 if st["size"] < 5 else 0]))
+            budget = {3: 40, 4: 70, 5: 100, 6: 14}[st["size"]]
+            sp = fixed_start_spec(rng, st, ["uniform", "pm1"][(j + swapped) % 2], budget, "near-terminal",
+                                  what + (" (colours exchanged)" if swapped else ""),
+                                  sampler=["uniform", "torch"][j % 2 if st["size"] < 5 else 0])
+            if st["size"] == 6:     # the network sees the finishing move (prior 0.5), the real sampler goes there: few simulations
+                sp["eval"] = {"kind": "blind_win", "seed": rng.randrange(1 << 30), "len": "max", "dyadic": True, "tiny": 0.5,
+                              "root_value": 0.25, "root_ply": st["ply"]}
+                sp["sampler"]["mode"] = "torch"
+            specs.append(sp)
     for size, k in generated:
         for j in range(k):
             sn = late_position(rng, size, {3: 30, 4: 60, 5: 120}[size])
@@ -1167,7 +1191,45 @@ def shared_eval_specs(rng, count):
     return specs
 
 
-def gen_specs(run, count, sizes, max_budget, transformer=2, smash=(), near_terminal=(), stacked=0, shared=0):
+def engine_reuse_specs(rng, count):
+    """ONE engine object across searches of the same configuration at different plies: (a) P, then P' reached from P by
+    two slides there and two back (same board, side to move and reserves, ply + 4); (b) P, then P with the ply shifted by
+    2 (constructed); (c) one tree in which the configuration of the root occurs again four plies deeper (the search is
+    continued on that node).  Every expanded node must hold child.position == node.position.move(child.move), ply included"""
+    import tak
+    from tak.model import encoding
+    T = tak.MoveType
+
+    def mid(size, x, y, t, slides=None):
+        return encoding.encode_move(size, tak.Move(x, y, t, slides))
+    specs = []
+    for j in range(count):
+        size = 3 if j % 4 != 3 else 4
+        n = size - 1
+        # after the two opening placements White owns the stone on (n, n), Black the one on (0, 0)
+        opening = [mid(size, 0, 0, T.PLACE_FLAT), mid(size, n, n, T.PLACE_FLAT)]
+        there_and_back = [mid(size, n, n, T.SLIDE_DOWN, (1,)), mid(size, 0, 0, T.SLIDE_UP, (1,)),
+                          mid(size, n, n - 1, T.SLIDE_UP, (1,)), mid(size, 0, 1, T.SLIDE_DOWN, (1,))]
+        b = rng.randint(6, 14)
+        shape = j % 3
+        if shape == 0:
+            phases = [{"path": [], "limit": b}, {"path": [], "limit": rng.randint(4, 12), "restart": True, "moves": there_and_back}]
+        elif shape == 1:
+            extra = random_opening(rng, size, rng.choice([0, 1, 2]))
+            opening = extra if extra else opening
+            phases = [{"path": [], "limit": b}, {"path": [], "limit": rng.randint(4, 12), "restart": True, "ply_shift": 2},
+                      {"path": [rng.randrange(1000)], "limit": rng.randint(2, 6)}]
+        else:
+            phases = [{"path": [], "limit": b}] + [{"path": [{"id": m}], "limit": 3} for m in there_and_back[:3]] + \
+                     [{"path": [{"id": there_and_back[3]}], "limit": rng.randint(5, 10)}]
+        specs.append({"size": size, "opening": opening,
+                      "eval": {"kind": ["uniform", "pm1"][j % 2], "seed": rng.randrange(1 << 30), "len": "max", "dyadic": True},
+                      "sampler": {"mode": ["uniform", "torch", "skew"][j % 3], "seed": rng.randrange(1 << 30)},
+                      "noise": None, "C": 4.0, "cutoff": 1e-6, "phases": phases, "tag": "one-engine-same-configuration-other-ply"})
+    return specs
+
+
+def gen_specs(run, count, sizes, max_budget, transformer=2, smash=(), near_terminal=(), stacked=0, shared=0, engine_reuse=0):
     rng = run.rng
     specs = []
     kinds = ["uniform", "random", "random", "drift", "dense", "illegal_mass", "cutoff_edge", "pm1"]
@@ -1215,6 +1277,8 @@ def gen_specs(run, count, sizes, max_budget, transformer=2, smash=(), near_termi
         specs.extend(stacked_capstone_specs(rng, stacked))
     if shared:
         specs.extend(shared_eval_specs(rng, shared))
+    if engine_reuse:
+        specs.extend(engine_reuse_specs(rng, engine_reuse))
     return specs
 
 
@@ -1239,10 +1303,10 @@ def tie_cutoff(run):
 def volumes(run):
     if run.quick:
         return dict(count=110, sizes=[3, 4], max_budget=60, transformer=2, smash=(6, 1),
-                    near_terminal=((3, 6), (4, 4)), stacked=1, shared=8)
+                    near_terminal=((3, 6), (4, 4)), stacked=1, shared=8, engine_reuse=6)
     # sizes 5 and 6 are a quarter of the searches (their trees and id tables are large)
     return dict(count=800, sizes=[3, 4, 3, 4, 5, 3, 4, 6], max_budget=200, transformer=6, smash=(40, 12),
-                near_terminal=((3, 60), (4, 40), (5, 20)), stacked=6, shared=80)
+                near_terminal=((3, 60), (4, 40), (5, 20)), stacked=6, shared=80, engine_reuse=45)
 
 
 # --------------------------------------------------------------------------
@@ -1415,7 +1479,7 @@ def report(run, res, model_view):
 def search(run, broken):
     """something no longer checks: audit freshly generated searches against the invariant itself"""
     core.setup_impl(ext=True, shims=True)
-    for res in pmap(one_search, gen_specs(run, count=60, sizes=[3, 4], max_budget=40, transformer=0)):
+    for res in pmap(one_search, gen_specs(run, count=60, sizes=[3, 4], max_budget=40, transformer=0, shared=4, engine_reuse=6)):
         if res["problems"] and not res["stats"].get("hypothesis_not_met"):
             report(run, res, None)
             return True
